@@ -34,6 +34,9 @@ type c19Case struct {
 	Merge    bool     `json:"merge"`
 	MemSrc   bool     `json:"memsrc"`
 	Capacity int      `json:"capacity"`
+	// CrossFS: the destination lies on another file system than the process's
+	// temporary directory
+	CrossFS bool `json:"crossfs,omitempty"`
 }
 
 var c19TreeCfg = h.TreeCfg{
@@ -131,6 +134,10 @@ func genC19(t *rapid.T) *c19Case {
 		c.DstMeta = "file"
 	}
 	c.Capacity = rapid.SampledFrom([]int{0, 1, 8, 64}).Draw(t, "cap")
+	// (only with attribute values any file system can hold)
+	if rapid.IntRange(0, 5).Draw(t, "crossfs") == 0 && c.BigXattr == 0 && smallXattrs(c.Tree) && smallXattrs(c.Dst) {
+		c.CrossFS = true
+	}
 	return c
 }
 
@@ -170,6 +177,7 @@ func c19Check(env *h.Env, c *c19Case) error {
 		dstTree.Nodes = keep
 		dstTree.Normalize()
 	}
+	env.DstOtherFS = c.CrossFS
 	f, dstDir, err := syncSetup(env, tr, dstTree, c.MemSrc, true)
 	if err != nil {
 		return err
@@ -432,4 +440,21 @@ func convergenceErrsLoose(after, before h.Snap, want *h.Tree, requested []string
 
 func TestC19(t *testing.T) {
 	h.Run(t, "C19", genC19, c19Check)
+}
+
+// smallXattrs: every entry's extended attributes fit what ext4 stores inline.
+func smallXattrs(t *h.Tree) bool {
+	if t == nil {
+		return true
+	}
+	for _, n := range t.Nodes {
+		total := 0
+		for k, v := range n.Xattrs {
+			total += len(k) + len(v) + 16
+		}
+		if total > 400 {
+			return false
+		}
+	}
+	return true
 }
